@@ -453,7 +453,11 @@ pub proof fn lemma_chunking_push(inp: Seq<u8>, sizes: Seq<nat>, used: nat, k: na
 
 FN('calculate_max_input', props=['C18', 'C19'], ret='r',
    ensures=[
-       ('aux.calculate_max_input.closed_form', 'r == spec_max_input(output_len as nat)'),
+       # `model.`: the closed form is this framework's CHOICE of a function for which C18 (<= n, monotone, a write of that many
+       # bytes is consumed whole) is proved by the lemmas; another formula may satisfy C18 as well.  If the code no longer
+       # matches the model, C18 is undecided by the verifier (never an alarm): the twin and the Kani harness, which check the
+       # property itself on the real functions, decide.
+       ('model.calculate_max_input.closed_form', 'r == spec_max_input(output_len as nat)'),
        ('C18.le_n', 'r <= output_len'),
    ],
    head='proof { lemma_max_input_le_and_monotone(output_len as nat, output_len as nat); }')
